@@ -21,8 +21,11 @@ import atexit
 import glob
 import hashlib
 import itertools
+import json
 import os
 import shutil
+import subprocess
+import sys
 from fractions import Fraction
 
 from ..core import repo
@@ -156,7 +159,104 @@ def build(case: dict, paths: list):
     return rtf.RTFDocument(**kw)
 
 
+# Child interpreter for the environment layer.  The host's MIME registry is changed BEFORE rtflite is imported; rtflite comes
+# from ${VERIF_REPO:-/repo}/src exactly as in the workers (mc.core.repo.bind()).
+_CHILD = r"""
+import json, mimetypes, sys
+job = json.load(sys.stdin)
+env = job["env"]
+mimetypes.knownfiles = []          # a host without /etc/mime.types & co (slim container, macOS, Windows without registry entries)
+mimetypes.init()
+if env == "png-remapped":          # a host whose registry says something unrelated about .png
+    mimetypes.add_type("application/x-unrelated", ".png")
+elif env == "blank":               # a host whose registry knows no type at all
+    mimetypes.types_map.clear()
+    mimetypes.common_types.clear()
+probe = {e: mimetypes.guess_type("x" + e)[0] for e in (".png", ".jpg", ".jpeg", ".emf")}
+sys.path.insert(0, job["verif"])
+from mc.core import repo
+repo.bind()
+from mc.props import c16
+out = []
+for d in job["docs"]:
+    try:
+        out.append({"rtf": c16.build(d["case"], d["paths"]).rtf_encode()})
+    except Exception as e:
+        out.append({"error": f"{type(e).__name__}: {e}"})
+real_stdout = sys.__stdout__
+real_stdout.write(json.dumps({"probe": probe, "src": repo.SRC, "out": out}))
+"""
+
+
+def eval_environment(case: dict) -> dict:
+    """Environment case: the same documents are encoded in this (normal) process and in a fresh interpreter whose MIME registry
+    differs (case["env"]); the format of an image is a function of its file (suffix / content), not of the host's registry, so
+    the child's output must be byte-identical."""
+    docs = []
+    viol, cnt = [], {}
+    for c in case["docs"]:
+        datas = [synth(f) for f in c["figs"]]
+        paths = [file_for(d, f["sfx"]) for d, f in zip(datas, c["figs"])]
+        try:
+            normal = build(c, paths).rtf_encode()
+        except Exception as e:
+            viol.append({"klass": None, "sig": f"encode-raised-{type(e).__name__}", "detail": f"{type(e).__name__}: {e}"[:300]})
+            normal = None
+        docs.append({"case": c, "paths": paths, "normal": normal})
+    job = {"env": case["env"], "verif": repo.VERIF, "docs": [{"case": d["case"], "paths": d["paths"]} for d in docs]}
+    p = subprocess.run([sys.executable, "-c", _CHILD], input=json.dumps(job), capture_output=True, text=True, cwd=repo.VERIF,
+                       env=dict(os.environ), timeout=900)
+    try:
+        res = json.loads(p.stdout[p.stdout.index('{"probe"'):])
+    except ValueError:
+        raise RuntimeError(f"environment child failed (rc={p.returncode}): {p.stderr[-800:]}")
+    if os.path.realpath(res["src"]) != os.path.realpath(repo.SRC):
+        raise RuntimeError(f"environment child imported rtflite from {res['src']}, expected {repo.SRC}")
+    probe = res["probe"]
+    if probe[".emf"] is None:
+        cnt["env-emf-unknown-to-registry"] = 1
+    if probe[".png"] not in (None, "image/png"):
+        cnt["env-png-remapped"] = 1
+    if all(v is None for v in probe.values()):
+        cnt["env-registry-blank"] = 1
+    for d, r in zip(docs, res["out"]):
+        sfx = [f["sfx"] for f in d["case"]["figs"]]
+        where = f"MIME registry '{case['env']}' (guess_type: {probe}): document with figures {sfx}"
+        cnt["env-documents"] = cnt.get("env-documents", 0) + 1
+        if d["normal"] is None:
+            continue
+        if "error" in r:
+            viol.append({"klass": None, "sig": "environment-encode-raised", "detail": f"{where}: encodes in the normal process, but in the other "
+                                                                                      f"environment raises {r['error'][:200]}"})
+        elif r["rtf"] != d["normal"]:
+            a, b = r["rtf"], d["normal"]
+            fd = next((i for i, (x, y) in enumerate(zip(a, b)) if x != y), min(len(a), len(b)))
+            viol.append({"klass": None, "sig": "environment-output-differs",
+                         "detail": f"{where}: output differs from the normal process at character {fd}: {a[max(0, fd - 20):fd + 30]!r} vs {b[max(0, fd - 20):fd + 30]!r}"})
+    return {"viol": viol, "nt": True, "cnt": cnt}
+
+
+ENV_SUFFIXES = {"png": [".png", ".PNG"], "jpeg": [".jpg", ".jpeg", ".JPG", ".JPEG"], "emf": [".emf", ".EMF"]}
+
+
+def environment_cases():
+    protos = {"png": {"fmt": "png", "w": 300, "h": 200, "len": [256, 0]}, "jpeg": {"fmt": "jpeg", "w": 640, "h": 480, "app": [16], "len": [0, 39]},
+              "emf": {"fmt": "emf", "tot": 121}}
+    docs = []
+    for fmt, sfxs in ENV_SUFFIXES.items():       # every suffix alone
+        for sfx in sfxs:
+            docs.append(single({**protos[fmt], "sfx": sfx, "salt": 3}))
+    allsfx = [(fmt, sfx) for fmt, sfxs in ENV_SUFFIXES.items() for sfx in sfxs]
+    for rot in range(len(allsfx)):               # mixed documents: every suffix next to every format, as first / middle / last figure
+        figs = [{**protos[allsfx[(rot + 3 * j) % len(allsfx)][0]], "sfx": allsfx[(rot + 3 * j) % len(allsfx)][1], "salt": 20 + j} for j in range(3)]
+        docs.append({"figs": figs, "fw": [3, 5.1], "fh": 2.5, "title": 1, "footnote": 1, "source": 1, "pt": "all", "pf": "last", "ps": "first",
+                     "paths": "Path" if rot % 2 else "list"})
+    return [{"env": env, "docs": docs} for env in ("no-system-files", "png-remapped", "blank")]
+
+
 def eval_case(case: dict) -> dict:
+    if "env" in case:
+        return eval_environment(case)
     if "hist" in case:
         return eval_history(case)
     figs = case["figs"]
@@ -640,7 +740,9 @@ def plan(run):
                 "document is built and encoded after every rewrite and every earlier document is encoded again; "
                 "(H) size boundaries: JPEG with one APPn of length 65533/65534/65535 and with several maximal APPn segments placing the frame header at "
                 "2^16 and 2^17 (thorough 2^18) + {-20,-11,-10,-9,-8,-4,-1,0,1,9,4096}, two maximal segments + DQT/DHT/fill byte, whole files of 2^16, 2^17 -1/0/+1 "
-                "bytes for PNG, JPEG, EMF. non-trivial = >= 2 figures, or a list-valued size, or a file whose "
+                "bytes for PNG, JPEG, EMF; (I) host MIME registry: 16 documents (each of the 8 suffixes .png .PNG .jpg .jpeg .JPG .JPEG .emf .EMF alone "
+                "and in 8 mixed 3-figure documents) encoded in fresh interpreters whose registry has no system files / maps .png to an unrelated type / is "
+                "blank, output byte-identical to the normal process. non-trivial = >= 2 figures, or a list-valued size, or a file whose "
                 "length is 39/0/1 mod 40, or a JPEG with segments in front of the frame header; distinct = distinct case")
     run.assumptions = [
         "the RTF reader's \\pict decoding and the PNG/JPEG header readers in mc/spec/figures.py are correct (cross-checked against Pillow at start)",
@@ -648,6 +750,8 @@ def plan(run):
         "display size tolerance |goal - inches*1440| < 1 twip (truncation and rounding both accepted)",
         "PNG: IHDR is the first chunk by definition, so the size fields sit at a fixed offset whatever else the file holds - large PNG files exercise the "
         "payload clause only; EMF: the header carries no pixel size that rtflite uses, large EMF files likewise",
+        "environment layer: the host's MIME registry (mimetypes.knownfiles, add_type, types_map) is changed in a child interpreter before rtflite is imported "
+        "from the same source tree; the format of an image is taken to be a function of the file, not of the host, so the output must not change",
         "subline placement, component order within a page and page-break geometry are C06's business and not demanded here",
         "multi-line components: a selected page must show all lines of the component in order exactly once, however they are rendered (\\line, paragraphs, rows)",
         "histories: a document built after a file was rewritten must embed the current content; a document built before and encoded again may show "
@@ -665,6 +769,8 @@ def plan(run):
         run.layer("size-lists", "mc.props.c16:eval_case", cases, chunk=60, total=len(cases))
         cases = list(placement_cases(nmax))
         run.layer("placement-product", "mc.props.c16:eval_case", cases, chunk=60, total=len(cases))
+        cases = environment_cases()   # three fresh interpreters, one per registry variant, run in parallel on the workers
+        run.layer("mime-registry-environments", "mc.props.c16:eval_case", cases, chunk=1, total=len(cases))
         cases = list(size_boundary_cases(not quick))
         run.layer("size-boundaries", "mc.props.c16:eval_case", cases, chunk=4, total=len(cases))
         cases = list(caption_line_cases(4 if quick else 6, not quick))
@@ -682,6 +788,8 @@ def plan(run):
                  "multi-figure", "multi-line-title", "multi-line-footnote", "multi-line-source", "title-lines==figures",
                  "jpeg-maximal-segment", "jpeg-frame-header-just-below-2^16", "jpeg-frame-header-at-or-above-2^16",
                  "jpeg-frame-header-just-below-2^17", "jpeg-frame-header-at-or-above-2^17", "file>64KiB-png", "file>64KiB-jpeg", "file>64KiB-emf",
+                 "env-emf-unknown-to-registry", "env-png-remapped", "env-registry-blank", "env-documents",
                  "history", "history-back-to-first-version", "history-same-length-other-bytes", "history-other-pixel-size"):
-        if not run.cnt.get(need):
+        # (an early-stopped or budget-cut run has not visited everything: it is reported as not exhaustive, the guards say nothing)
+        if not run.cnt.get(need) and all(l["completed"] for l in run.layers):
             run.harness_errors.append({"layer": "vacuity", "case": None, "error": f"counter {need} is zero"})
